@@ -5,7 +5,7 @@ CONSTANTS
   Kind = "nameaddr"
   Atoms <- AtomsKnownW
   Prefix <- PfxAS
-  MaxLen = 10
+  MaxLen = 9
   Cfgs <- CfgsNA8
   Junk = 34
   EmitOn = TRUE
